@@ -85,7 +85,8 @@ def permutation_specs(ctx, rng):
             if len(common) < 2:
                 break
             a, b = rng.sample(common, 2)
-            pat = rng.choice([_re.escape(dotted(a)), _re.escape(dotted(a[:-1])) + r"\.[^.]+$", r".*\." + _re.escape(a[-1]) + "$"])
+            pat = rng.choice([_re.escape(dotted(a)), _re.escape(dotted(a[:-1])) + r"\.[^.]+$", r".*\." + _re.escape(a[-1]) + "$",
+                              r"r\.zzz_matches_nothing.*"])      # the last one: a lookup error, every time
             side = [{"kind": "regex", "name": ["regex"], "matches": [], "pat": pat}]
             other = [{"kind": rng.choice(["named", "sub"]), "name": list(b), "matches": []}]
             rule = mk_rule(rng.choice(["should", "should_only", "should_not"]), rng.choice(["import", "imported"]),
@@ -151,6 +152,25 @@ def seed_specs(ctx, rng):
     return specs
 
 
+def order_specs(ctx, rng):
+    out = []
+    for _ in range(60 if ctx.quick else 1000):
+        p = projgen.random_project(rng, max_depth=rng.choice([2, 3, 4]), n_stmts=rng.randint(6, 30), rel_abs=True)
+        ep = sc.ScanEpisode(p)
+        subs = [d for d in p["dirs"] if len(d) > 1]
+        for d in rng.sample(subs, min(3, len(subs))):
+            ep.scan(mpath=d)
+            if rng.random() < 0.3:
+                ep.scan(mpath=d, ext=True)
+        ep.scan()
+        ep.scan(ext=True)
+        ep.scan(limit=1)
+        a = ep.spec
+        b = dict(a, items=list(reversed(a["items"])))
+        out.append((a, b))
+    return out
+
+
 def run_under_seeds(specs):
     root = tlc.scratch_root()
     fd, sp = tempfile.mkstemp(suffix=".json", dir=root)
@@ -212,6 +232,21 @@ def run(ctx):
                               "event": {"seed0": a[k] if k < len(a) else None, "other": b[k] if k < len(b) else None},
                               "spec": hspecs[i], "episode_events": None})
                 break
+    # (O) the same scans of one project in two different orders (sub directories first / root first, different
+    # configurations interleaved): the result of each scan must not depend on what was scanned before it
+    ospecs = order_specs(ctx, rng)
+    fwd = runner.run_specs([a for a, _ in ospecs])
+    bwd = runner.run_specs([b for _, b in ospecs])
+    order_diffs = 0
+    for (a_spec, b_spec), ea, eb in zip(ospecs, fwd, bwd):
+        ra = {e["id"]: (e["out"], e["modules"], e["imports"]) for e in ea if e["k"] == "scan"}
+        rb = {e["id"]: (e["out"], e["modules"], e["imports"]) for e in eb if e["k"] == "scan"}
+        bad = sorted(k for k in ra if ra[k] != rb.get(k))
+        if bad:
+            order_diffs += 1
+            fails.append({"prop": "C15", "clause": "scan-result-depends-on-earlier-scans", "detail": {"scans": bad},
+                          "event": {"scan": bad[0], "first_order": ra[bad[0]], "other_order": rb.get(bad[0])},
+                          "spec": {"driver": "scan-orders", "a": a_spec, "b": b_spec}, "episode_events": None})
     # the reference traces must also be accepted by the specifications
     by_driver = {}
     for spec, ep in zip(hspecs, ref):
@@ -223,7 +258,7 @@ def run(ctx):
            "traces_validated_against_impl": n_traces, "trace_events": events,
            "simulated_histories": len(hists), "history_length": 40, "applies_compared_with_isolated_evaluation": applies,
            "same_law_instances": laws, "hash_seeds": SEEDS, "episodes_per_seed": len(hspecs),
-           "seed_differences": seed_diffs, "evaluations": applies + laws + len(hspecs) * len(SEEDS),
+           "seed_differences": seed_diffs, "scan_order_pairs": len(ospecs), "scan_order_differences": order_diffs, "evaluations": applies + laws + len(hspecs) * len(SEEDS),
            "distinct_nontrivial": applies + laws,
            "rule": "one case = one Apply inside a 40-step history (compared with the isolated evaluation), one "
                    "permuted / re-ordered / re-enumerated call (law 'same'), or one episode under 8 hash seeds",
@@ -244,6 +279,14 @@ def replay(ctx, rp):
                 tr = trace.validate([out[fam]], f"{module}.tla", f"{module}.cfg", procs=1)
                 fails += attach(tr, [spec], [out[fam]]); n += tr.events
         return CheckResult(fails=fails, coverage={"replayed_events": n})
+    if spec["driver"] == "scan-orders":
+        ea, eb = runner.run_specs([spec["a"]], 1)[0], runner.run_specs([spec["b"]], 1)[0]
+        ra = {e["id"]: (e["out"], e["modules"], e["imports"]) for e in ea if e["k"] == "scan"}
+        rb = {e["id"]: (e["out"], e["modules"], e["imports"]) for e in eb if e["k"] == "scan"}
+        bad = sorted(k for k in ra if ra[k] != rb.get(k))
+        fails = [{"prop": "C15", "clause": "scan-result-depends-on-earlier-scans", "detail": {"scans": bad}, "event": None,
+                  "spec": spec, "episode_events": None}] if bad else []
+        return CheckResult(fails=fails, coverage={"replayed_scans": len(ra)})
     if rp.get("clause") == "trace-depends-on-hash-seed":
         by_seed = run_under_seeds([spec])
         ref = by_seed[SEEDS[0]]
